@@ -50,7 +50,7 @@ def joint_compare(factors_impl, fs_model, case, drv, what):
 
 # ----------------------------------------------------------------------------- BN -> MN
 def gen_bn(rng, tier):
-    case = gen.rand_bn(rng, nmin=1, nmax=5, maxcard=3, name_kind=rng.choice(["str", "word", "int"]), mincard=2)
+    case = gen.rand_bn(rng, nmin=1, nmax=5, maxcard=3, name_kind=rng.choice(["str", "word", "int", "int0"]), mincard=2)
     return case
 
 
